@@ -22,6 +22,11 @@ def _num(v):
 class NatSpec(object):
     mode = "nat"
 
+    @property
+    def da(self):
+        import dimarray
+        return dimarray
+
     def __init__(self, inputs):
         self.inputs_json = inputs
         self._strcodes = None
@@ -89,6 +94,9 @@ class NatSpec(object):
         a = np.empty(len(vals), dtype=dt)
         a[:] = vals
         return a.reshape(d["shape"])
+
+    def tag(self, arr, key, value):
+        pass
 
     def ghost_int(self, name, native=None):
         return native()
